@@ -14,6 +14,8 @@ def quiet():
 def labels(n, kind):
     if kind == 'int':
         return list(range(1, n + 1))
+    if kind == 'int0':
+        return list(range(0, n))            # includes the label 0
     return [chr(ord('A') + i) for i in range(n)]
 
 
@@ -22,6 +24,8 @@ def gen_graph(rnd, n=None, family=None, label_kind=None, allow_dup=True):
     n = n or rnd.choice([2, 3, 3, 4, 4, 5, 5])
     family = family or rnd.choice(['chain', 'oneway', 'cycle', 'star', 'grid', 'random', 'random', 'line'])
     label_kind = label_kind or rnd.choice(['str', 'str', 'int'])
+    if label_kind == 'int' and n % 2 == 0:
+        label_kind = 'int0'
     L = labels(n, label_kind)
     if family == 'line':
         y = rnd.choice(GRID)
